@@ -147,6 +147,14 @@ class E(Exception):
         self.k = k
 
 
+class Runaway(BaseException):
+    """raised from the observation hooks when one operation does far more work than any history of the model:
+    BaseException so that wrap_callback's `except Exception` does not swallow it"""
+
+
+TICK_LIMIT = 4000
+
+
 class World:
     """Interprets the op language against the real redun.promise and records what the property talks about."""
 
@@ -166,9 +174,16 @@ class World:
         self.notifying = {}      # idx -> number of non-trivial _notify loops of that promise on the Python stack
         self.invocations = {}    # (promise, branch) -> then() numbers in invocation order
         self.problems = []       # (signature, what, expected, actual)
+        self.op_start = 0
+
+    def step(self):
+        self.tick += 1
+        if self.tick - self.op_start > TICK_LIMIT:
+            raise Runaway()
 
     # -- observation hooks (installed on the class by `hooked`)
     def register(self, obj):
+        self.step()
         self.idx[id(obj)] = len(self.proms)
         self.proms.append(obj)
 
@@ -185,7 +200,7 @@ class World:
     def on_settle(self, obj, br, value, orig):
         i = self.idx.get(id(obj))
         before = self.status(obj)
-        self.tick += 1
+        self.step()
         start = self.tick
         ret = orig(obj, value)
         self.tick += 1
@@ -214,7 +229,9 @@ class World:
             self.notifying[i] -= 1
 
     # -- values
-    def render(self, v):
+    def render(self, v, depth=0):
+        if depth > 8:
+            return "(x too-deep)"
         if v is None:
             return "N"
         if isinstance(v, bool):
@@ -226,7 +243,7 @@ class World:
         if isinstance(v, self.pm.Promise):
             return "(p i%d)" % self.idx.get(id(v), -1)
         if isinstance(v, list):
-            return "(l" + "".join(" " + self.render(x) for x in v) + ")"
+            return "(l" + "".join(" " + self.render(x, depth + 1) for x in v) + ")"
         return "(x %s)" % type(v).__name__
 
     def mk_val(self, v):
@@ -251,7 +268,7 @@ class World:
         _, fid, acts, out = f
 
         def user_fn(arg):
-            self.tick += 1
+            self.step()
             rec = {"arg": self.render(arg), "tick": self.tick, "owner_status": self.status(self.proms[reg["p"]])}
             reg["calls"][br].append(rec)
             reg_seq = self.invocations.setdefault((reg["p"], br), [])
@@ -330,8 +347,13 @@ class World:
     def top(self, a):
         """one top-level operation -> reply line in the driver's format"""
         self.calls = []
+        self.op_start = self.tick
         try:
             self.do_act(a, None)
+        except Runaway:
+            self.active.clear()
+            self.notifying.clear()
+            return "!Runaway"
         except Exception as e:  # noqa: BLE001
             return "!" + type(e).__name__
         st = []
@@ -712,8 +734,13 @@ def run_cases(ctx, cases, tagname):
                     ctx.mismatch("promise states / callback log after operation %d differ from the model" % k,
                                  case=casedoc, model=mo, impl=impl)
                 if impl.startswith("!"):
-                    ctx.violation("C13-exception-escapes", "an exception escaped a promise operation", case=casedoc,
-                                  expected="no exception", actual=impl, kind="history")
+                    if impl == "!Runaway":
+                        ctx.violation("C13-runaway", "one operation made more than %d callback/settlement calls (the model "
+                                      "finishes it in a few steps): callbacks are run again and again" % TICK_LIMIT,
+                                      case=casedoc, expected=mo, actual="does not finish", kind="history")
+                    else:
+                        ctx.violation("C13-exception-escapes", "an exception escaped a promise operation", case=casedoc,
+                                      expected="no exception", actual=impl, kind="history")
                     break
                 for sig, what, exp, act in w.oracle():
                     r = ctx.violation(sig, what, case=casedoc, expected=repr(exp), actual=repr(act), kind="history")
